@@ -136,6 +136,52 @@ class Program:
                 mm = re.match(r'^Pin<&mut (\{.*\})>$', t0)
                 if mm:
                     self.closure_by_type.setdefault(_closure_key(mm.group(1)), []).append(b)
+        self.closures_restored = self.fix_truncated_closure_aggregates()
+
+    def fix_truncated_closure_aggregates(self):
+        """rustc's MIR printer zips the *root* captured variables' names with the closure aggregate's operands and drops the operands beyond them
+        (edition-2021 disjoint captures: `{closure@..} { self: move _28, worker_hint: move _29 }` for a closure with four captured places). The
+        missing operands are the temporaries assigned right before the aggregate; they are restored when - and only when - the listed ones are
+        a prefix of those temporaries and the closure body uses exactly that many captures."""
+        from mirparse import Rvalue, Operand, Place
+        fixed = 0
+        for body in self.bodies.values():
+            for blk in body.blocks.values():
+                for i, s in enumerate(blk.stmts):
+                    rv = s.rvalue
+                    if s.kind != 'assign' or rv is None or rv.kind != 'aggregate' or not str(rv.args[0]).startswith('{closure@') or rv.args[1] != 'named':
+                        continue
+                    cands = self.closure_by_type.get(_closure_key(rv.args[0])) or []
+                    if len(cands) > 1:
+                        base = body.name.split('~')[0]
+                        cands = [b for b in cands if b.name.split('~')[0].startswith(base + '::{closure#')] or cands
+                    if not cands:
+                        continue
+                    cb = cands[0]
+                    texts = [cb.header] + list(cb.debug.values()) + [st_.text for bl in cb.blocks.values() for st_ in bl.stmts] + [bl.term.text for bl in cb.blocks.values() if bl.term is not None]
+                    ks = [int(k) for t in texts for k in re.findall(r'\(\*?_1\)?\.(\d+):', t)] + [int(k) for t in texts for k in re.findall(r'\(_1\.(\d+):', t)]
+                    if not ks:
+                        continue
+                    n = max(ks) + 1
+                    items = rv.args[2]
+                    if len(items) >= n:
+                        continue
+                    prev = []
+                    j = i - 1
+                    while j >= 0 and len(prev) < n:
+                        ps = blk.stmts[j]
+                        if ps.kind == 'assign' and ps.place is not None and not ps.place.proj:
+                            prev.append(ps.place.local)
+                        elif ps.kind != 'nop':
+                            break
+                        j -= 1
+                    prev.reverse()
+                    listed = [op.place.local if op.place is not None and not op.place.proj else None for (_, op) in items]
+                    if len(prev) == n and prev[:len(listed)] == listed:
+                        new_items = tuple(('up%d' % k, Operand('move', Place(loc, ()), None)) for k, loc in enumerate(prev))
+                        s.rvalue = Rvalue('aggregate', (rv.args[0], rv.args[1], new_items))
+                        fixed += 1
+        return fixed
 
     @staticmethod
     def _segments(name):
